@@ -149,10 +149,14 @@ PROPS = {
     },
     "C18": {
         "module": "ZenonVerif.Props.C18",
-        "streams": [S("paging", 30000, 2000000)],
+        "streams": [S("paging", 30000, 2000000), S("rpc", 6, 300, timeout=7200)],
         "rule": "paging stream: (index,count,len) over the full uint32 range with boundary bias + complete page sweeps of "
-                "random lists; distinct = distinct (op,result) lines",
-        "partial": "JSON-RPC server robustness and the ~80 embedded getters are runtime/correspondence only",
+                "random lists; rpc stream: the real LedgerApi called in-process on generated chains (momentums/account blocks by page "
+                "and by height, unreceived blocks) with indices, sizes, heights, counts over boundary values and the full integer "
+                "range for known, unknown and contract addresses, each list printed as heights for the model and compared by "
+                "monitors with the stores; complete page sweeps; JSON round trip of every returned block; distinct = distinct lines",
+        "partial": "the ~80 embedded-contract getters and the robustness of the JSON-RPC server against hostile byte strings "
+                   "are not modelled (runtime behaviour); the ledger API is covered in-process on generated chains",
     },
     "C14": {
         "module": "ZenonVerif.Props.C14",
